@@ -497,7 +497,8 @@ class Executor:
         self.const_cache = {}
         self.stats = {'paths': 0, 'forks': 0, 'steps': 0, 'infeasible': 0}
         self.deadline = time.time() + timeout_s if timeout_s else None
-        from . import models, models_iter, models_map, models_std
+        from . import models, models_iter, models_map, models_std, models_fs
+        self.generic_subst = {}
         self.all_orders = False
         self.models = models.REGISTRY
         self.model_pats = models.PATTERNS
@@ -901,6 +902,14 @@ class Executor:
                 return Enum(self.dest_type(fr, dest) or segs[-2], idx,
                             {(segs[-1], i): v for i, v in enumerate(vals)}, variant=segs[-1])
         ty = self.dest_type(fr, dest) or c
+        try:
+            tn = parse_type(ty).name
+        except Exception:
+            tn = None
+        if tn:
+            idx = self.prog.variant_index(tn, segs[-1])
+            if idx is not None:
+                return Enum(ty, idx, {(segs[-1], i): v for i, v in enumerate(vals)}, variant=segs[-1])
         return Struct(ty, dict(enumerate(vals)))
 
     # ------------------------------------------------------------ arithmetic
@@ -1177,6 +1186,9 @@ class Executor:
 
     def invoke(self, st, callee, args, destlv, ret_bb, dest_ty=None, fr=None):
         """dispatch a call: per-check override, model, MIR body, else unsupported."""
+        for gp, conc_ty in self.generic_subst.items():
+            if f'<{gp} as ' in callee:
+                callee = callee.replace(f'<{gp} as ', f'<{conc_ty} as ')
         c = canon_callee(callee)
         ctx = CallCtx(self, st, callee, c, args, destlv, ret_bb, dest_ty, fr)
         h = self.extra_models.get(c)
